@@ -30,6 +30,6 @@ GivenSeq == LET s == SelectSeq(GeneratePos(Depth), LAMBDA p : p \in DOMAIN c.lea
 Record == [id |-> c.id, mode |-> c.mode, bottomup |-> c.bottomup, ranged |-> c.ranged, keepu |-> c.keepu,
            given |-> GivenSeq, init |-> ExistingSeq(InitPyr(c)), final |-> ExistingSeq(pyr),
            live |-> SelectSeq(GeneratePos(Depth), LAMBDA p : p \in c.live),
-           ops |-> SelectSeq(GeneratePos(Depth), LAMBDA p : p \in Ops(c)), sv |-> c.sv]
+           ops |-> SelectSeq(GeneratePos(Depth), LAMBDA p : p \in Ops(c)), sv |-> c.sv, refused |-> Refused]
 Emit == Finished => PrintT(<<"R", ToJson(Record)>>)
 =============================================================================
